@@ -5,6 +5,24 @@ import json, os, subprocess
 ROOT = os.path.dirname(os.path.dirname(os.path.abspath(__file__)))
 
 CLAIMED = {
+ "C20": dict(
+   text="Cgroup/Tree.v: handles over per-controller directory trees (v1: five controllers; v2: the same code with one), `create` (per "
+        "controller an atomic mkdir; an existing directory is skipped and makes the handle `existing` iff nothing was created before it), "
+        "histories of New / Random / OpenExisting / AddProc / Destroy and of directories made or removed by somebody else, concurrent creators "
+        "stepping one controller at a time, and the readers of cpu.stat and of the single-number files on tokenised content.  Theorems: "
+        "C20_destroy_only_own + C20_created_was_absent (every history: a directory is removed only by the handle whose own mkdir created it, "
+        "never a pre-existing one), C20_unique_owner (ANY number of concurrent creators, EVERY interleaving: never two owners, and an owner as "
+        "soon as anyone passed the first controller), C20_addproc_moves (that process and only it, in every controller of the handle, also for "
+        "a handle of a pre-existing group), C20_cpu_usage_units / _missing and C20_read_uint_units / _garbage.  Tie on every run: random "
+        "histories on the REAL v1 hierarchy of this machine and on a real cgroup2 mount in a private mount namespace (Existing flags, "
+        "directories per controller, group of every thread of moved multi-threaded processes) replayed in Coq; 40 rounds x 16 concurrent "
+        "creators through handle.New and the package New on both hierarchies; limits read back from the kernel's files; CPU / memory readings "
+        "of a child that burns a known amount; 150 synthetic statistics files against the reader models in Coq.",
+   note="Partial: rmdir of a group that still has sub-groups or processes fails in the kernel and is not modelled (the histories only "
+        "destroy empty leaf groups); the v2 controller files do not exist on this machine (controllers are bound to v1), so the v2 readers are "
+        "tied on synthetic directories through the verif hook; tokenisation of file contents is done by the driver.  Trusted: Coq kernel + vm_compute.",
+   technique="Coq proof by induction over histories and over all interleavings of concurrent creators (ghost ownership invariant) + replay of real cgroup histories on v1 and v2 hierarchies",
+   design="§5 C20"),
  "C05": dict(
    text="Kernel/Mount.v: declared mounts (kind, source, target, flag word), the kernel's rules for mount / bind / recursive bind / "
         "MS_REMOUNT|MS_BIND / pivot_root + detach, `mount_one` (mount, then the read-only remount iff BIND|RDONLY - both implementations) "
